@@ -52,3 +52,84 @@ CONTRACTS.append(Contract(
             'payload': Lit(None)},
     ensures=[], raises={},
 ))
+
+# ---- operation shells: every public operation starts the statistics timer once, stops it exactly once on EVERY exit
+# (normal or exceptional) with the escaping exception, and - with recorders - stages the result exactly once.
+# Prototype: GetInstance.  Ghost counters live on the connection (caller_self in the callee contracts).
+OPS = 'pywbem/_cim_operations.py::WBEMConnection.'
+CLASS_SPECS = {'CIMInstanceName': {'host': Opt(Str), 'namespace': Opt(Str), 'classname': Str},
+               'CIMInstance': {'path': Opt(Ref('CIMInstanceName'))}}
+STATS = Obj('Statistics')
+CONN2 = Obj('WBEMConnection', statistics=STATS, _operation_recorders=ListOf('ref'), conn_id=Opt(Str), default_namespace=Str,
+            last_raw_request=Opt(Str), last_raw_reply=Opt(Str), last_request_len=Int, last_reply_len=Int,
+            last_server_response_time=Opt(Int), _last_operation_time=Opt(Int),
+            _g_started=Int, _g_stopped=Int, _g_staged_args=Int, _g_staged_result=Int)
+start_timer_c = Contract('pywbem/_statistics.py::Statistics.start_timer', returns=Ref('OperationStatistic'), trusted=True,
+                         modifies=['caller_self._g_started'],
+                         ensures=[('one-timer-started', 'caller_self._g_started == old(caller_self._g_started) + 1')],
+                         raises={})
+stop_timer_c = Contract('pywbem/_statistics.py::OperationStatistic.stop_timer', returns=Opt(Int), trusted=True,
+                        modifies=['caller_self._g_stopped'],
+                        ensures=[('one-timer-stopped', 'caller_self._g_stopped == old(caller_self._g_stopped) + 1')],
+                        raises={}, notes='A-LIB-like: stop_timer of a started timer does not raise (known finding: non-numeric '
+                                         'WBEMServerResponseTime, bounded)')
+rec_reset_c = Contract(OPS + 'operation_recorder_reset', trusted=True, raises={})
+rec_args_c = Contract(OPS + 'operation_recorder_stage_pywbem_args', trusted=True, raises={},
+                      modifies=['self._g_staged_args'],
+                      ensures=[('args-staged', 'self._g_staged_args == old(self._g_staged_args) + 1')])
+rec_result_c = Contract(OPS + 'operation_recorder_stage_result', trusted=True, raises={},
+                        modifies=['self._g_staged_result'],
+                        ensures=[('result-staged', 'self._g_staged_result == old(self._g_staged_result) + 1')])
+ns_from_obj_c = Contract(OPS + '_iparam_namespace_from_objectname', returns=Str, raises={'TypeError': Raises()},
+                         notes='proved under C04')
+iparam_inst_c = Contract(OPS + '_iparam_instancename', returns=Opt(Ref('CIMInstanceName')), raises={'TypeError': Raises()},
+                         ensures=[('required-means-not-NULL', 'implies(required, result is not None)'),
+                                  ('names-the-class-the-caller-named',
+                                   '(result.classname == instancename.classname) if (result is not None and '
+                                   'isinstance(instancename, CIMInstanceName)) else True'),
+                                  ('only-a-path-or-NULL-passes', 'result is None or isinstance(instancename, CIMInstanceName)')],
+                         notes='proved under C03')
+iparam_bool_c = Contract(OPS + '_iparam_bool', returns=Opt(Bool), raises={'TypeError': Raises()}, trusted=True)
+iparam_plist_c = Contract('pywbem/_cim_operations.py::_iparam_propertylist', returns=Opt(ListOf('str')), raises={'TypeError': Raises()},
+                          notes='proved under C03')
+IRV = Opt(TupleOf(TupleOf(Str, Ref('dict'), ListOf(('union', ('ref', 'CIMInstance'), ('ref', 'CIMClass'))))))
+PYWBEM_ERRORS = {k: Raises() for k in ('CIMError', 'CIMXMLParseError', 'XMLParseError', 'ConnectionError', 'AuthError',
+                                       'HTTPError', 'TimeoutError', 'HeaderParseError', 'VersionError')}
+imethodcall_c = Contract(OPS + '_imethodcall', returns=IRV, raises=PYWBEM_ERRORS, trusted=True,
+                         notes='assumed: returns the parsed IRETURNVALUE children or raises a pywbem.Error (C02)')
+copy_path_c = Contract('pywbem/_cim_obj.py::CIMInstanceName.copy', returns=Ref('CIMInstanceName'), trusted=True,
+                       ensures=[('fresh-copy', 'fresh(result) and result.classname == self.classname')])
+ONCE = ('counted-exactly-once',
+        'self._g_started == old(self._g_started) + 1 and self._g_stopped == old(self._g_stopped) + 1')
+STAGED = ('recorders-get-arguments-and-result-exactly-once',
+          'self._g_staged_args == old(self._g_staged_args) + (1 if len(self._operation_recorders) > 0 else 0) and '
+          'self._g_staged_result == old(self._g_staged_result) + (1 if len(self._operation_recorders) > 0 else 0)')
+SHELL_RAISES = {k: Raises(post=[ONCE, STAGED]) for k in list(PYWBEM_ERRORS) + ['TypeError']}
+CONTRACTS.append(Contract(
+    OPS + 'GetInstance',
+    params={'self': CONN2, 'InstanceName': Union(Ref('CIMInstanceName'), NoneT, Str), 'LocalOnly': Opt(Bool),
+            'IncludeQualifiers': Opt(Bool), 'IncludeClassOrigin': Opt(Bool), 'PropertyList': Union(NoneT, Str, ListOf('str'))},
+    callees={'start_timer': start_timer_c, 'stop_timer': stop_timer_c, 'operation_recorder_reset': rec_reset_c,
+             'operation_recorder_stage_pywbem_args': rec_args_c, 'operation_recorder_stage_result': rec_result_c,
+             '_iparam_namespace_from_objectname': ns_from_obj_c, '_iparam_instancename': iparam_inst_c,
+             '_iparam_bool': iparam_bool_c, '_iparam_propertylist': iparam_plist_c, '_imethodcall': imethodcall_c,
+             'CIMInstanceName.copy': copy_path_c},
+    ensures=[ONCE, STAGED,
+             ('result-is-an-instance-with-the-path-the-caller-named',
+              'isinstance(result, CIMInstance) and result.path is not None '
+              'and result.path.classname == old(InstanceName).classname')],
+    raises=SHELL_RAISES))
+
+# ---- shells of the other operations live in a sibling file (same callee contracts, same postconditions)
+import importlib.util as _ilu
+import os as _os
+import sys as _sys
+_p = _os.path.join(_os.path.dirname(_os.path.abspath(__file__)), 'C19_ops.py')
+if _os.path.exists(_p):
+    _s = _ilu.spec_from_file_location('contracts_C19_ops', _p)
+    _m = _ilu.module_from_spec(_s)
+    _sys.modules['contracts_C19_ops'] = _m
+    _s.loader.exec_module(_m)
+    CONTRACTS.extend(_m.CONTRACTS)
+    for _k, _v in getattr(_m, 'CLASS_SPECS', {}).items():
+        CLASS_SPECS.setdefault(_k, {}).update(_v)
